@@ -5,6 +5,11 @@ package main
 import (
 	"verif/harness/c01"
 	"verif/harness/c02"
+	"verif/harness/c03"
+	"verif/harness/c06"
+	"verif/harness/c07"
+	"verif/harness/c11"
+	"verif/harness/c16"
 	"verif/harness/core"
 )
 
@@ -12,5 +17,10 @@ func main() {
 	core.WorkerMain(map[string]core.Harness{
 		"C01": c01.H{},
 		"C02": c02.H{},
+		"C03": c03.H{},
+		"C06": c06.H{},
+		"C07": c07.H{},
+		"C11": c11.H{},
+		"C16": c16.H{},
 	})
 }
